@@ -681,6 +681,12 @@ class _LintFixture(_np.ndarray):
             self.table = r * lon
         self._key = key
         return self.table
+    def latched_data(self, flag):
+        seen = getattr(self, '_seen', None)
+        if seen is None:
+            seen = len(self.array)
+            self._seen = seen
+        return seen
     def cached_early(self, rate, step, scale):
         key2 = (rate, scale)
         if key2 == self._key2:
@@ -821,7 +827,7 @@ def self_test(chk, prog):
         signature(sink, p5, [FIXTURE_HOST])
     except Exception as e:
         chk.error("lint SIGNATURE crashed on its positive example: %s: %s" % (type(e).__name__, e))
-    for name in list(ALL) + ["SHADOW-REBIND.memo", "SHADOW-REBIND.derived", "CACHE-KEY.property", "CACHE-KEY.early", "SIGN-CANON.rows"]:
+    for name in list(ALL) + ["SHADOW-REBIND.memo", "SHADOW-REBIND.derived", "CACHE-KEY.property", "CACHE-KEY.early", "LATCH.data", "SIGN-CANON.rows"]:
         fired = name in sink.rules
         chk.canary("lint %s fires on its embedded positive example" % name, fired, "" if fired else "no finding on the fixture")
 
@@ -1847,9 +1853,17 @@ def latch(chk, prog, files):
         if f.cls is None or f.name in ("__init__", "__new__", "__array_finalize__"):
             continue
         params = _params(f)
-        if not params:
-            continue
         taint = None
+        # locals that hold the remembered attribute: v = getattr(self, '_x', None) / v = self._x
+        held = {}
+        for s0 in ast.walk(f.node):
+            if isinstance(s0, ast.Assign) and len(s0.targets) == 1 and isinstance(s0.targets[0], ast.Name):
+                v0 = s0.value
+                if isinstance(v0, ast.Call) and isinstance(v0.func, ast.Name) and v0.func.id == "getattr" and len(v0.args) >= 2 and isinstance(v0.args[0], ast.Name) \
+                        and v0.args[0].id == "self" and isinstance(v0.args[1], ast.Constant):
+                    held[s0.targets[0].id] = v0.args[1].value
+                elif isinstance(v0, ast.Attribute) and isinstance(v0.value, ast.Name) and v0.value.id == "self":
+                    held[s0.targets[0].id] = v0.attr
         for node in ast.walk(f.node):
             if not isinstance(node, ast.If):
                 continue
@@ -1857,6 +1871,8 @@ def latch(chk, prog, files):
             attr = None
             if isinstance(t, ast.Compare) and len(t.ops) == 1 and isinstance(t.ops[0], ast.Is) and isinstance(t.comparators[0], ast.Constant) and t.comparators[0].value is None:
                 l = t.left
+                if isinstance(l, ast.Name) and l.id in held:
+                    attr = held[l.id]
                 if isinstance(l, ast.Attribute) and isinstance(l.value, ast.Name) and l.value.id == "self":
                     attr = l.attr
                 elif isinstance(l, ast.Call) and isinstance(l.func, ast.Name) and l.func.id == "getattr" and len(l.args) >= 2 and isinstance(l.args[1], ast.Constant):
@@ -1873,6 +1889,20 @@ def latch(chk, prog, files):
                         taint = _tainted_by_params(f.node, params)
                     dep = sorted({p for p in params for x in ast.walk(s.value)
                                   if (isinstance(x, ast.Name) and x.id in _tainted_by_params(f.node, [p]))})
+                    # LATCH.data: the latched value is computed from the object's own DATA (the array an ndarray subclass wraps), which in-place methods and item
+                    # assignment change without resetting the latch
+                    vals = [s.value]
+                    if isinstance(s.value, ast.Name):
+                        vals += [a_.value for a_ in ast.walk(node) if isinstance(a_, ast.Assign) and any(isinstance(tg, ast.Name) and tg.id == s.value.id for tg in a_.targets)]
+                    data = sorted({"self." + x.attr for v_ in vals for x in ast.walk(v_) if isinstance(x, ast.Attribute) and isinstance(x.value, ast.Name) and x.value.id == "self"
+                                   and x.attr in ("array", "A") and isinstance(x.ctx, ast.Load)})
+                    resets = [g_ for g_ in f.cls.methods.values() if g_ is not f and g_.name not in ("__init__", "__new__", "__array_finalize__") and any(
+                        isinstance(x, ast.Attribute) and isinstance(x.ctx, (ast.Store, ast.Del)) and x.attr == attr for x in ast.walk(g_.node))]
+                    if data and not resets:
+                        dep = []
+                        chk.finding("LATCH.data", f.module.rel, f.qname, "self.%s latched from %s" % (attr, ", ".join(data)),
+                                    "`self.%s` is computed from the object's data (%s) only while it is still unset and reused ever after, and no other method resets it: once the data "
+                                    "change (an in-place method, item assignment) later calls work from the stale value" % (attr, ", ".join(data)), line=s.lineno)
                     if dep:
                         chk.finding("LATCH", f.module.rel, f.qname, "self.%s latched on first use" % attr,
                                     "`self.%s` is computed from this call's arguments (%s) only while it is still None and reused ever after: later calls with other arguments "
